@@ -214,7 +214,22 @@ func oneToyRun(c *Ctx, r *Rng, iters int) {
 		c.Fail("harness:parameters", "suppascript:parameters-rejected", e.Error(), nil)
 		return
 	}
+	// in four runs of ten the explorer under test is one of TWO clones of the configured explorer, as the runs of a
+	// scenario are: the sibling is initialised too and takes steps of its own (unrecorded) between the recorded ones —
+	// whatever the clones still share of the solution set shows in the recorded clone (C05: "after every operation")
+	var sib *suppapitnarm.Explorer
+	var sibPot *toyModel
+	if r.Chance(0.4) {
+		tmpl := ex
+		ex = tmpl.DeepClone().(*suppapitnarm.Explorer)
+		sib = tmpl.DeepClone().(*suppapitnarm.Explorer)
+	}
 	ex.Initialise()
+	if sib != nil {
+		sib.Initialise()
+		sibPot = sib.VerifPotentialModel().(*toyModel)
+		c.Stat("toy run with a stepping sibling clone")
+	}
 	cur := ex.Model().(*toyModel)
 	pot := ex.VerifPotentialModel().(*toyModel)
 	coolSrc := &unitSource{next: func() uint64 { return 0 }}
@@ -249,6 +264,10 @@ func oneToyRun(c *Ctx, r *Rng, iters int) {
 	c.Stat(fmt.Sprintf("toy run kind=%s d=%d n-bucket=%d", kind, d, bucket(n)))
 	c.Stat(fmt.Sprintf("toy run CheckNonDominance=%v", checkND))
 
+	ownMembers := map[string]bool{}
+	for _, st := range ex.VerifArchive().Archive() {
+		ownMembers[st.Encoding()] = true
+	}
 	refCountdown, refStep := uint64(float64(initialStep)), float64(initialStep)
 	comp := marchive.ModelCompressor{}
 	for it := 0; it < iters; it++ {
@@ -305,6 +324,16 @@ func oneToyRun(c *Ctx, r *Rng, iters int) {
 			}
 			return pick % l
 		}
+		if sib != nil && r.Chance(0.7) {
+			sibPot.next = func(curBits []bool) []bool {
+				nb := make([]bool, len(curBits))
+				for i := range nb {
+					nb[i] = r.Bool()
+				}
+				return nb
+			}
+			protect(func() { sib.TryRandomChange() })
+		}
 		iterNo := ex.VerifCurrentIteration()
 		tBefore := ex.VerifCoolant().Temperature()
 		archBefore := append([]*marchive.CompressedModelState(nil), ex.VerifArchive().Archive()...)
@@ -315,6 +344,25 @@ func oneToyRun(c *Ctx, r *Rng, iters int) {
 			return
 		}
 		cand := comp.Compress(pot)
+		// every member of the solution set after the step was a member before it or is this step's candidate (nothing
+		// else was ever offered to THIS explorer's set)
+		{
+			own := map[string]bool{cand.Encoding(): true}
+			for e := range ownMembers { // as this explorer's own last step left them (a sibling may have stepped since)
+				own[e] = true
+			}
+			for k, st := range ex.VerifArchive().Archive() {
+				if !own[st.Encoding()] {
+					c.Fail("members-are-the-offers", "suppascript:foreign-member",
+						fmt.Sprintf("iteration %d: member %d (action set %s) of the solution set was neither a member before the step nor the candidate %s (sibling clone stepping: %v)", iterNo, k, st.Encoding(), cand.Encoding(), sib != nil), nil)
+					break
+				}
+			}
+			ownMembers = map[string]bool{}
+			for _, st := range ex.VerifArchive().Archive() {
+				ownMembers[st.Encoding()] = true
+			}
+		}
 		diffs := cand.VariableDifferences(before)
 		res := ex.VerifArchiveResult()
 		moved, desirable := ex.VerifChangeAccepted(), ex.VerifChangeIsDesirable()
